@@ -302,10 +302,18 @@ def extract(repo):
             if item.name == "__init__":
                 raise TranslatorError("%s.__init__ not understood" % cname)
             if item.name not in METHODS:
-                # private helpers / __repr__ / __ne__ ...: they may not touch the lock themselves
+                # private helpers, __repr__, __ne__, __copy__ ...: not operations of the table.  They may
+                # take the lock, but only in the one understood way: `with self._lock:` (sole item, no
+                # `as`); any other use of self._lock (acquire/release by hand, passing it on) fails closed
+                ok_uses = set()
                 for n in ast.walk(item):
-                    if _is_self_lock(n):
-                        raise TranslatorError("%s.%s uses self._lock (not in the table)" % (cname, item.name))
+                    if isinstance(n, ast.With) and len(n.items) == 1 and _is_self_lock(n.items[0].context_expr) \
+                            and n.items[0].optional_vars is None:
+                        ok_uses.add(id(n.items[0].context_expr))
+                for n in ast.walk(item):
+                    if _is_self_lock(n) and id(n) not in ok_uses:
+                        raise TranslatorError("%s.%s uses self._lock other than as `with self._lock:`"
+                                              % (cname, item.name))
                 continue
             if item.decorator_list:
                 raise TranslatorError("%s.%s is decorated" % (cname, item.name))
